@@ -42,6 +42,7 @@ class Net:
             kw = dict(sd.get('kw', {}))
             st = Stack(self.bus, sd['name'], dll=dll, max_cmdt_packets=sd.get('win', 1), **kw)
             st.zero_ts = bool(sc.get('zero_ts'))
+            st.ts_offset = sc.get('ts_offset', 0.0)
             if sc.get('rx_threads'):
                 st.start_rx_thread()     # frames are handled on a controlled receive thread (its send calls may block)
             self.stacks.append(st)
